@@ -164,7 +164,9 @@ def run(
     if simulate is None and r.violated is None and not m and not _RE_STATS.search(out):
         bad = bad or "no statistics line in TLC output"
     if bad:
-        tail = "\n".join(l for l in out.splitlines() if not l.startswith('"'))[-3000:]
+        body = "\n".join(l for l in out.splitlines() if not l.startswith('"') and not re.match(r"^\d+\. Line", l))
+        i = body.find("Error:")
+        tail = body[i: i + 2500] if i >= 0 else body[-2500:]
         raise MachineryError(f"{bad} ({module}/{cfg}):\n{tail}\n{p.stderr[-1000:]}")
     if r.violated and not expect_violation:
         pass  # caller decides
